@@ -119,6 +119,11 @@ func (f *format) encReplay(input string) string {
 // modes: P = Parse(whole) ; S = ParseString ; W = Write* + end ; R = ParseReader(scripted reader)
 func (f *format) parseRun(mode string, vfail int, chunks [][]byte) string {
 	rec := newRecorder(vfail)
+	if vfail <= -2 {
+		// the visitor fails with io.EOF - an error value the parser's own plumbing also uses
+		rec = newRecorder(-vfail - 2)
+		rec.failErr = io.EOF
+	}
 	var err error
 	depths := "- - -"
 	var doc []byte
@@ -151,14 +156,34 @@ func (f *format) parseRun(mode string, vfail int, chunks [][]byte) string {
 				err = p.VerifFinalize()
 			}
 			depths = p.depths()
-		case "R":
+		case "R", "E":
 			steps := make([]readStep, len(chunks))
 			for i, c := range chunks {
 				steps[i] = readStep{data: c}
 			}
+			if mode == "E" && len(steps) > 0 {
+				steps[len(steps)-1].eof = true // the last data arrives together with io.EOF
+			}
 			_, err = f.parseReader(&scriptReader{steps: steps}, refRecorder{rec})
+		case "X":
+			// Write ... Write, and the last piece through Parse (= feed + end of input)
+			p := f.newParser(refRecorder{rec})
+			for i, c := range chunks {
+				if i == len(chunks)-1 {
+					err = p.Parse(c)
+				} else if _, err = p.Write(c); err != nil {
+					break
+				}
+			}
+			if len(chunks) == 0 {
+				err = p.Parse(nil)
+			}
+			depths = p.depths()
 		}
 	})
+	if err != nil && rec.failErr != nil && err == rec.failErr {
+		err = errInjected // reported as "inj": the visitor's own error came back
+	}
 	evs := rec.evs
 	if f.mergeRefs {
 		for i := range evs {
@@ -180,25 +205,31 @@ func (f *format) parseRun(mode string, vfail int, chunks [][]byte) string {
 func (f *format) parseCase(r *rng) string {
 	doc := f.genDoc(r)
 	chunks := r.chunking(doc)
-	mode := []string{"P", "W", "W", "W", "R", "S"}[r.n(6)]
+	mode := []string{"P", "W", "W", "W", "R", "S", "E", "X"}[r.n(8)]
+	if mode == "X" && f.name == "json" {
+		mode = "W" // json's Parse starts a new document
+	}
 	if mode == "P" || mode == "S" {
 		chunks = [][]byte{doc}
 	}
 	vfail := -1
 	if r.chance(1, 6) {
 		vfail = r.n(12)
+		if r.chance(1, 4) {
+			vfail = -vfail - 2 // ... failing with io.EOF
+		}
 	}
 	obs := f.parseRun(mode, vfail, chunks)
 	// C02 direct oracle: the same document in one piece must give the same events and verdict
 	flags := ""
-	if mode != "P" && vfail < 0 {
+	if mode != "P" && vfail == -1 {
 		whole := f.parseRun("P", -1, [][]byte{doc})
 		a, b := stripDepth(obs), stripDepth(whole)
 		if a != b {
 			flags = " ## C02 whole=" + strings.ReplaceAll(b, " ", "_")
 		}
 	}
-	if f.refTokens != nil && vfail < 0 {
+	if f.refTokens != nil && vfail == -1 {
 		flags += " ## REF " + f.refTokens(doc)
 	}
 	return fmt.Sprintf("%sparse\t%s %d %s\t%s%s", f.name, mode, vfail, chunksTok(chunks), obs, flags)
